@@ -17,6 +17,10 @@ V = os.path.dirname(os.path.dirname(os.path.abspath(__file__)))
 OUT = V + "/seeded/reverted_fixes.json"
 
 
+# checks whose harness instantiates the header templates itself (the linked libraries only provide exceptions / helpers)
+HEADER_ONLY_CHECKS = {"C%02d" % i for i in list(range(1, 13)) + [15, 16, 17, 18, 20, 21, 22, 23, 24, 25, 26, 27, 28]}
+
+
 def sh(cmd, **kw):
     return subprocess.run(cmd, capture_output=True, text=True, **kw)
 
@@ -53,14 +57,22 @@ def main():
                 continue
             try:
                 worst = 0
+                files = re.findall(r"^diff --git a/(\S+)", patch, re.M)
+                hdr_only = all(f_.startswith("include/TFEL/") for f_ in files)
                 for p in props:
                     t0 = time.time()
-                    o = sh([V + "/vf", "check", p, "--tier", "quick"], cwd=V, env=dict(os.environ, VERIF_SEED="0"))
+                    env = dict(os.environ, VERIF_SEED="0")
+                    if hdr_only and p in HEADER_ONLY_CHECKS:
+                        env["VF_DEBUG_SKIP_TREE_REBUILD"] = "1"  # the harness compiles the header itself
+                    o = sh([V + "/vf", "check", p, "--tier", "quick"], cwd=V, env=env)
+                    if o.returncode != 1 and "VF_DEBUG_SKIP_TREE_REBUILD" in env:  # a miss is only believed from a full run
+                        env.pop("VF_DEBUG_SKIP_TREE_REBUILD")
+                        o = sh([V + "/vf", "check", p, "--tier", "quick"], cwd=V, env=env)
                     keys = sorted(set(re.findall(r"^\s*key=(\S.*)$", o.stdout, re.M)))
                     pats = [k.strip() for e in entries if e["property"] == p for k in e["key"].split(",")]
                     hit = [k for k in keys if any(fnmatch.fnmatch(k, q) for q in pats)]
                     rec["runs"][p] = {"rc": o.returncode, "distinct_keys": len(keys), "keys_matching_entry": hit[:6], "other_keys": [k for k in keys if k not in hit][:6],
-                                      "wall_s": round(time.time() - t0), "tail": o.stdout[-300:] if o.returncode != 1 else ""}
+                                      "wall_s": round(time.time() - t0), "tree_rebuild_skipped": "VF_DEBUG_SKIP_TREE_REBUILD" in env, "tail": o.stdout[-300:] if o.returncode != 1 else ""}
                     worst = max(worst, 1 if o.returncode == 1 else 0)
                     print(c, p, "rc=%d" % o.returncode, "keys=%d" % len(keys), "matching=%d" % len(hit), "%.0fs" % (time.time() - t0), subj[:70], flush=True)
                 rec["rc"] = 1 if worst else 0
